@@ -343,6 +343,60 @@ def handleCompose (st : St) (idw partsEnc det implW implPs : String) : Verdict :
       detail := if oracle.1 == "VIOL" || (inScope && indep && modelW != modelU) then s!"{oracle.2}|model whole={fmtLocs modelW} model union={fmtLocs modelU}" else oracle.2 }
   | _, _ => { kind := "COMPOSE", group := det, agree := "E", detail := "unknown file or detector" }
 
+/-- all locations of a tree (the proof-side definition) -/
+def locsOfTree (t : T) : List Loc := locsOf t
+
+def dedupLocs (ls : List Loc) : List Loc :=
+  let sorted := ls.toArray.qsort (fun a b => a.fileNo < b.fileNo || (a.fileNo == b.fileNo && (a.start < b.start || (a.start == b.start && a.stop < b.stop)))) |>.toList
+  sorted.foldr (fun l acc => match acc with | l' :: _ => if l == l' then acc else l :: acc | [] => [l]) []
+
+def handleTokMap (st : St) (id1 id2 enc : String) : St × Option Verdict :=
+  let (starts, ends) := parseTokMap enc
+  match lookup st.files id1, lookup st.files id2 with
+  | some f1, some f2 =>
+    let ρ : Loc → Loc := fun l => (relocate starts ends l).getD ⟨l.fileNo, 0, 0⟩
+    let unmapped := (locsOfTree f1.tree).filter fun l => (relocate starts ends l).isNone
+    let st := { st with tokMaps := truncate 8 (((id1, id2), (starts, ends)) :: st.tokMaps) }
+    let distinct := dedupLocs (locsOfTree f1.tree)
+    let injective := (dedupLocs (distinct.map ρ)).length == distinct.length
+    if !unmapped.isEmpty then (st, some { kind := "TOKMAP", agree := "E", detail := s!"location not at token boundaries: {repr unmapped.head!}" })
+    else if !injective then (st, some { kind := "TOKMAP", agree := "E", detail := "the token relocation is not injective on the locations of the tree" })
+    else if mapLoc ρ f1.tree == f2.tree then (st, some { kind := "TOKMAP", agree := "A", oracle := "ok" })
+    else
+      let a := (locsOfTree (mapLoc ρ f1.tree))
+      let b := (locsOfTree f2.tree)
+      let l1 := locsOfTree f1.tree
+      let d := ((l1.zip (a.zip b)).find? (fun p => p.2.1 != p.2.2))
+      (st, some { kind := "TOKMAP", agree := "E", detail := s!"re-laid-out file does not parse to the relocated tree: first differing location (original, relocated, re-parsed) = {(d.map fun p => s!"{p.1.start}:{p.1.stop} -> {p.2.1.start}:{p.2.1.stop} vs {p.2.2.start}:{p.2.2.stop}").getD "-"}; counts {a.length} {b.length}" })
+  | _, _ => (st, some { kind := "TOKMAP", agree := "E", detail := "unknown file" })
+
+def handleRelay (st : St) (id1 id2 det impl1 impl2 : String) : Verdict :=
+  match lookup st.files id1, lookup st.files id2, detectorByName det, lookup (st.tokMaps.map fun e => (e.1.1 ++ "|" ++ e.1.2, e.2)) (id1 ++ "|" ++ id2) with
+  | some f1, some f2, some d, some (starts, ends) =>
+    let ρ : Loc → Loc := fun l => (relocate starts ends l).getD ⟨l.fileNo, 0, 0⟩
+    let m1 := canonLocs ((d f1.tree).map ρ)
+    let m2 := canonLocs (d f2.tree)
+    let oracle : String × String :=
+      match parseLocs impl1, parseLocs impl2 with
+      | some a, some b =>
+        let a' := canonLocs (a.map fun (s, e) => ρ ⟨0, s, e⟩)
+        if a' == b then ("ok", "") else ("VIOL", s!"flagged before (relocated)={fmtLocs a'} after={fmtLocs b}")
+      | _, _ => ("VIOL", "panic")
+    { kind := "RELAY", group := det, agree := if m1 == m2 then "A" else "D", oracle := oracle.1,
+      detail := if m1 == m2 && oracle.1 != "VIOL" then "" else s!"{oracle.2}|model relocated={fmtLocs m1} model after={fmtLocs m2}" }
+  | _, _, _, _ => { kind := "RELAY", group := det, agree := "E", detail := "missing file, detector or token map" }
+
+def handleStrLit (st : St) (id1 id3 det impl1 impl3 : String) : Verdict :=
+  match lookup st.files id1, lookup st.files id3, detectorByName det with
+  | some f1, some f3, some d =>
+    let m1 := canonLocs (d f1.tree)
+    let m3 := canonLocs (d f3.tree)
+    let agree := m1 == m3
+    let oracle := impl1 != "PANIC" && impl1 == impl3
+    { kind := "STRLIT", group := det, agree := if agree then "A" else "D", oracle := if oracle then "ok" else "VIOL",
+      detail := if agree && oracle then "" else s!"original strings: {impl1}|code-like text inside the strings: {impl3}|model {fmtLocs m1} vs {fmtLocs m3}" }
+  | _, _, _ => { kind := "STRLIT", group := det, agree := "E", detail := "missing file or detector" }
+
 def step (st : St) (line : String) : St × Option Verdict :=
   match splitTabs line with
   | ["ROOT", rid, ty, dbg] =>
@@ -373,6 +427,9 @@ def step (st : St) (line : String) : St × Option Verdict :=
     let st := { st with detImpl := truncate 2000 (((fid, det), impl) :: st.detImpl) }
     (st, some (handleDet st fid det impl))
   | ["LINES", fid, cat, variant, _fileNo, impl] => (st, some (handleLines st fid cat variant impl))
+  | ["TOKMAP", id1, id2, enc] => handleTokMap st id1 id2 enc
+  | ["RELAY", id1, id2, det, impl1, impl2] => (st, some (handleRelay st id1 id2 det impl1 impl2))
+  | ["STRLIT", id1, id3, det, impl1, impl3] => (st, some (handleStrLit st id1 id3 det impl1 impl3))
   | ["COMPOSE", idw, partsEnc, det, implW, implPs] => (st, some (handleCompose st idw partsEnc det implW implPs))
   | ["RESOLVE", cliPath, tomlEnc, ce, implExit, implReport] => (st, some (handleResolve cliPath tomlEnc ce implExit implReport))
   | ["RENDER", cat, enc, implHex, same] => (st, some (handleRender cat enc implHex same))
